@@ -420,13 +420,16 @@ fn main() {
                     for (bi, block) in batch.blocks.iter().enumerate() {
                         for p in block.blob_parts.iter() {
                             let idx = BlobIndexReader::read(&p.index).expect("sealed index must parse");
-                            assert_eq!(idx, p.indices);
+                            // the sealed page lists every entry of the blob so far; this part's are the last ones
+                            assert!(idx.len() >= p.indices.len());
+                            assert_eq!(idx[idx.len() - p.indices.len()..], p.indices[..]);
                             parts.push(format!(
-                                "{}:{}:{}:{}:[{}]",
+                                "{}:{}:{}:{}:{}:[{}]",
                                 bi,
                                 p.blob_block_offset,
                                 p.part_blob_offset,
                                 p.data.len(),
+                                idx.len(),
                                 p.indices
                                     .iter()
                                     .map(|i| format!("{}.{}.{}.{}", i.hash, i.sequence, i.offset, i.len))
